@@ -71,7 +71,7 @@ def gen(rng, idx, tier):
             ops[-1]["rq_fit"] = rng.choice([1, 2, 3])
         if rng.randrange(3) == 0:
             ops[-1]["rsp_fit"] = rng.choice([1, 2, 3])
-    return {"ops": ops, "max_pdu": rng.choice([0, 64, 256, 16382]), "sched": C.gen_sched(rng, fine_pct=10), "net": C.gen_net(rng)}
+    return {"ops": ops, "max_pdu": rng.choice([0, 64, 65, 256, 257, 16382]), "sched": C.gen_sched(rng, fine_pct=10), "net": C.gen_net(rng)}
 
 
 def shrink(sc):
